@@ -2317,7 +2317,8 @@ vbi_decode_teletext(vbi_decoder *vbi, uint8_t *buffer)
 		subpage = vbi_unham16p (p + 2) + vbi_unham16p (p + 4) * 256;
 		flags = vbi_unham16p (p + 6);
 
-		if (page == 0xFF || (subpage | flags) < 0) {
+		if (page == 0xFF
+		    || (vbi_unham16p (p + 2) | vbi_unham16p (p + 4) | flags) < 0) {
 			cvtp->function = PAGE_FUNCTION_DISCARD;
 			return FALSE;
 		}
